@@ -44,8 +44,9 @@ impl<K: ExpiredKey<E>, E: Expiration, V: Copy> KeyExpTree<K, E, V> {
     #[inline]
     fn create_ordered_list(&mut self, time: E) -> Vec<V> {
         let height = self.height();
+        let count = self.store.buffer.len() - self.store.unused.len() - 1;
         let mut stack = Vec::with_capacity(height);
-        let mut list = Vec::with_capacity(8 << height);
+        let mut list = Vec::with_capacity(count);
 
         if self.root == EMPTY_REF {
             return list;
